@@ -40,12 +40,14 @@ def gen_config(rng, nconn=None):
         v = rng.choice((4, 6))
         while True:
             me, peer = c14.gen_ip(rng, v), c14.gen_ip(rng, v)
-            # peer addresses of different connections are distinct (see assumptions: process_acquire looks an
-            # existing IKE_SA up by peer address only)
-            if me != peer and peer not in used_peers and me not in used_peers and not me.is_unspecified \
-                    and not peer.is_unspecified and me not in my_addresses:
+            # (my_addr, peer_addr) pairs are distinct; a peer may be shared by two connections (multi-homed host)
+            if ci and not rng.randrange(3):
+                peer = rng.choice([p for _, p in used_peers if p.version == v] or [peer])
+            if me != peer and (me, peer) not in used_peers and not me.is_unspecified and not peer.is_unspecified \
+                    and me not in my_addresses and me not in {p for _, p in used_peers} \
+                    and peer not in my_addresses:
                 break
-        used_peers.add(peer)
+        used_peers.add((me, peer))
         my_addresses.append(me)
         protect = []
         for ei in range(rng.choice((1, 2, 3))):
@@ -318,7 +320,7 @@ def check_acquire(ctx, ke, ctl, cfg, sim_spd, rng, fails, deep):
         ike_conf, entry = owners[0]
         dup = sum(1 for e in ike_conf.protect if e.index == entry.index) > 1
         msg, want = build_acquire(ke, rng, pol, tmpl_first=bool(rng.randrange(4)))
-        existing = [x for x in ctl.ike_sas if x.peer_addr == ike_conf.peer_addr]
+        existing = [x for x in ctl.ike_sas if x.peer_addr == ike_conf.peer_addr and x.my_addr == ike_conf.my_addr]
         (req, my, peer), seen, before = acquire_on_real(ctl, msg, record_only=True)
         ctx.case(['acquire', msg.hex()], nontrivial=True)
         ctx.count('acquire:existing-ike-sa' if existing else 'acquire:new-ike-sa')
@@ -345,7 +347,11 @@ def check_acquire(ctx, ke, ctl, cfg, sim_spd, rng, fails, deep):
                 c14.expect(d, 'acquire selector inside the entry', (tsi.is_subset(entry.my_ts), tsr.is_subset(entry.peer_ts)),
                            (True, True))
             c14.expect(d, 'returned addresses', (my, peer), (sa.my_addr, sa.peer_addr))
-        if d:
+        if d and len(seen) == 1 and (seen[0][0].my_addr, seen[0][0].peer_addr) != (ike_conf.my_addr, ike_conf.peer_addr) \
+                and seen[0][0].peer_addr == ike_conf.peer_addr:
+            fails.append(Failure('property', 'acquire:ike-sa-chosen-by-peer-only', '; '.join(d[:5]),
+                                 {'kind': 'c15-multihomed', 'seed': ctx.seed}))
+        elif d:
             fails.append(Failure('property', 'acquire:mapped-wrongly', '; '.join(d[:5]),
                                  {'kind': 'c15', 'seed': ctx.seed, 'acquire': msg.hex()}))
     # the real IkeSa.process_acquire: known index -> CHILD_SA under negotiation with the entry's parameters;
@@ -441,6 +447,10 @@ def oracle(ctx, deep):
     rng = ctx.rng
     ke = c14.KEnc(ctx)
     n = 150 if deep else 40
+    for i in range(n // 8 + 2):
+        fails += multihomed_probe(ctx, ke, rng, rng.choice((4, 6)))
+        if fails:
+            return fails
     for i in range(n):
         my_addresses, conf = gen_config(rng)
         cfg = load(my_addresses, conf)
@@ -475,7 +485,75 @@ def oracle(ctx, deep):
     return fails
 
 
+def multihomed_probe(ctx, ke, rng, v=4):
+    """F18: two connections share peer_addr and differ in my_addr; an IKE_SA exists for conn0; the ACQUIRE of conn1's
+    outbound policy must be handled by a NEW initiator IkeSa of conn1 (and the one of conn0 must stay untouched)."""
+    while True:
+        a0, a1, peer = c14.gen_ip(rng, v), c14.gen_ip(rng, v), c14.gen_ip(rng, v)
+        if len({a0, a1, peer}) == 3 and not any(x.is_unspecified for x in (a0, a1, peer)):
+            break
+    n0, n1, n2 = ('10.1.0.0/24', '10.2.0.0/24', '10.3.0.0/24') if v == 4 else ('fd00:1::/64', 'fd00:2::/64', 'fd00:3::/64')
+    auth = {'my_auth': {'id': 'a@x', 'psk': 'k1'}, 'peer_auth': {'id': 'b@x', 'psk': 'k2'}}
+    same_index = rng.choice((True, False))
+    conf = {'conn0': dict(auth, my_addr=str(a0), peer_addr=str(peer),
+                          protect=[{'index': 1, 'my_subnet': n0, 'peer_subnet': n2, 'mode': 'tunnel', 'lifetime': 300}]),
+            'conn1': dict(auth, my_addr=str(a1), peer_addr=str(peer),
+                          protect=[{'index': 1 if same_index else 2, 'my_subnet': n1, 'peer_subnet': n2,
+                                    'mode': 'transport', 'lifetime': 77, 'ipsec_proto': 'ah'}])}
+    cfg = load([a0, a1], conf)
+    sim, ctl, out, res = run_controller(ctx, ke, [a0, a1], cfg, rng)
+    if ctl is None:
+        return [Failure('property', 'startup:spd-differs-from-configuration', f'constructor raised {out}',
+                        {'kind': 'c15-multihomed', 'seed': ctx.seed})]
+    confs = list(cfg.ike_configurations.values())
+    outs = {p['tmpl']['saddr']: p for (sel, d), p in sim.spd.items() if d == 1}
+    d = []
+    ctl.ike_sas.clear()
+    msg0, _ = build_acquire(ke, rng, outs[c14.addr16(a0)])
+    (_, _, _), seen0, _ = acquire_on_real(ctl, msg0, record_only=True)
+    msg1, want = build_acquire(ke, rng, outs[c14.addr16(a1)])
+    (req, my, peer_ret), seen1, before = acquire_on_real(ctl, msg1, record_only=True)
+    ctx.case(['multihomed', msg1.hex()], nontrivial=True)
+    ctx.count('acquire:multihomed')
+    if len(seen0) != 1 or len(seen1) != 1:
+        d.append('IkeSa.process_acquire not called exactly once per ACQUIRE')
+    else:
+        sa0, sa1 = seen0[0][0], seen1[0][0]
+        c14.expect(d, "conn1's ACQUIRE handled by an IKE_SA of conn1 (my_addr, peer_addr)", (sa1.my_addr, sa1.peer_addr),
+                   (a1, peer))
+        c14.expect(d, 'a NEW initiator IKE_SA was created for conn1', (sa1 is not sa0, sa1.is_initiator, len(ctl.ike_sas)),
+                   (True, True, 2))
+        c14.expect(d, "its configuration is conn1's", sa1.configuration is confs[1], True)
+        c14.expect(d, 'index handed over', seen1[0][3], confs[1].protect[0].index)
+        c14.expect(d, 'returned addresses', (my, peer_ret), (a1, peer))
+    if d:
+        return [Failure('property', 'acquire:ike-sa-chosen-by-peer-only', '; '.join(d[:4]),
+                        {'kind': 'c15-multihomed', 'seed': ctx.seed, 'family': v})]
+    return []
+
+
+def regressions(ctx):
+    """Fixed finding F18 must stay fixed."""
+    if not hasattr(ctx, 'uapi'):
+        ctx.uapi = c14.translate_uapi(ctx)
+    ke = c14.KEnc(ctx)
+    fails = []
+    for v in (4, 6, 4, 6):
+        fails += multihomed_probe(ctx, ke, ctx.rng, v)
+        if fails:
+            break
+    return fails
+
+
 def replay(ctx, obj):
+    if obj.get('kind') == 'c15-multihomed':
+        if not hasattr(ctx, 'uapi'):
+            ctx.uapi = c14.translate_uapi(ctx)
+        ke = c14.KEnc(ctx)
+        out = []
+        for v in (4, 6, 4, 6):
+            out += multihomed_probe(ctx, ke, ctx.rng, v)
+        return out[:1]
     if obj.get('kind') == 'c15' and 'conf' in obj:
         if not hasattr(ctx, 'uapi'):
             ctx.uapi = c14.translate_uapi(ctx)
@@ -493,10 +571,11 @@ def replay(ctx, obj):
 
 CHECK = core.Check(
     'C15', CLUSTER, 'Props/C15.v', translate=translate, correspond=correspond, oracle=oracle, replay=replay,
-    deps=('lib',),
+    regressions=regressions, deps=('lib',),
     rule='configurations: 1-3 connections x 1-3 protect entries, IPv4/IPv6 endpoints and subnets (defaults included), '
          'ports {0,1,22,255,256,65535,random}, tcp/udp/icmp/any, transport/tunnel, esp/ah, explicit indices '
          '{0,1,2,small,2^20,2^29-1,random} or the random default, loaded by the real configuration.Configuration; '
+         'two connections may share the peer address (multi-homed, finding F18) and a dedicated probe runs that case; '
          'random prior kernel state (0-4 foreign policies, 0-3 SAs); one ACQUIRE per installed outbound policy with a '
          'random packet selector inside the policy; every case is non-trivial (distinct by content hash)',
     trusted_base=['Coq 8.16.1 kernel (coqc, vm_compute; no native_compute)',
@@ -506,12 +585,10 @@ CHECK = core.Check(
                   'and its Python twin SimKernel (struct offsets from gcc)',
                   'correspondence harness py/props/c15.py (recorder socket replacing NetlinkProtocol._get_socket, '
                   'time.time/os.getpid/random.randint patched)'],
-    assumptions=['peer addresses of different connections are distinct (IkeSaController.process_acquire re-uses an '
-                 'IKE_SA chosen by peer address alone; with two connections to one peer the ACQUIRE of one is handed '
-                 'to the IKE_SA of the other - reported to the coordinator as a candidate finding)',
-                 'protect indices are non-negative and below 2^29 (the policy index is a 32-bit field: index*8+1)',
+    assumptions=['protect indices are non-negative and below 2^29 (the policy index is a 32-bit field: index*8+1)',
                  'no two requested policies share selector and direction (the kernel refuses the second: EEXIST)',
                  'the kernel acknowledges every request (a refusal raises NetlinkError out of the constructor)',
-                 'C15_acquire is proved for the index lookup only; selectors/proposal/mode/lifetime of the negotiation '
-                 'and the choice of the IKE_SA are checked on the real code, not proved'],
+                 'C15_acquire is proved for the index lookup and for the choice of the IKE_SA ((my_addr, peer_addr) rule, '
+                 'C15_acquire_ike_sa); selectors/proposal/mode/lifetime of the negotiation are checked on the real code, '
+                 'not proved'],
 )
